@@ -82,6 +82,17 @@ def class_fingerprint(c) -> collections.Counter:
     return f
 
 
+def module_fingerprint(tree) -> collections.Counter:
+    """Fingerprint of a module: the names it defines at top level (functions, classes, single-name assignments)."""
+    f = collections.Counter()
+    for n in tree.body:
+        if isinstance(n, (ast.FunctionDef, ast.AsyncFunctionDef, ast.ClassDef)):
+            f['d:' + n.name] += 1
+    for n, _ in _globals(tree):
+        f['g:' + n] += 1
+    return f
+
+
 def usage_profile(trees: dict, names: set) -> dict:
     """{name: Counter of 'u:<module>.<function>' for every function that mentions the name}: tells small globals (`_MODIFYING = {}`) apart."""
     out = {n: collections.Counter() for n in names}
@@ -117,6 +128,13 @@ def _defs(tree):
     return out
 
 
+def _after_import(lines, k, ln, col) -> bool:
+    """Is position (ln, col) behind the `import` keyword of the (possibly multi-line) import statement that starts on line k?"""
+    text = '\n'.join(lines[k - 1:ln - 1] + [lines[ln - 1][:col]])
+    import re
+    return re.search(r'\bimport\b', text) is not None
+
+
 def load_db(section='functions'):
     if not os.path.exists(DB):
         return {}
@@ -135,13 +153,35 @@ def canonicalise(sources: dict) -> tuple[dict, dict]:
             trees[m] = ast.parse(src)
         except SyntaxError:
             return sources, {}
+    renames = {}
+    mod_renames = {}
+    # a renamed module (`fst_misc.py` -> `fst_util.py`): recognised by the names it defines at top level
+    mdb = load_db('modules')
+    if mdb:
+        mcands = [(m, module_fingerprint(t)) for m, t in trees.items() if m not in mdb]
+        for name, rec in sorted(mdb.items()):
+            if name in trees or not mcands:
+                continue
+            fp = collections.Counter(rec['fingerprint'])
+            if sum(fp.values()) < 4:
+                continue
+            scored = sorted(((similarity(fp, c), m) for m, c in mcands), reverse=True)
+            if scored[0][0] < MIN_SIM or (len(scored) > 1 and scored[0][0] - scored[1][0] < MIN_GAP):
+                continue
+            new_mod = scored[0][1]
+            if '.' in new_mod or '.' in name or new_mod in mod_renames:
+                continue
+            mod_renames[new_mod] = name
+            trees[name] = trees.pop(new_mod)
+            sources = dict(sources)
+            sources[name] = sources.pop(new_mod)
+            mcands = [(m, c) for m, c in mcands if m != new_mod]
     defs = [(m, q, fn) for m, t in trees.items() for q, fn in _defs(t)]
     present = {q.rsplit('.', 1)[-1] for _, q, _ in defs}
     missing = {name: rec for name, rec in db.items() if name not in present}
     known = set(db)
     # names used anywhere (a renamed function keeps being called: the old name must not occur any more, the new one must not be an old one)
     cands = [(m, q, fn, fingerprint(fn)) for m, q, fn in defs if q.rsplit('.', 1)[-1] not in known]
-    renames = {}
     for name, rec in sorted(missing.items()):
         fp = collections.Counter(rec['fingerprint'])
         if sum(fp.values()) < MIN_SIZE:
@@ -192,20 +232,41 @@ def canonicalise(sources: dict) -> tuple[dict, dict]:
                 continue
             if scored[0][1] not in renames:
                 renames[scored[0][1]] = name
-    if not renames:
+    if not renames and not mod_renames:
         return sources, {}
     out = {}
     for m, src in sources.items():
-        if not any(n in src for n in renames):
+        if not any(n in src for n in renames) and not any(n in src for n in mod_renames):
             out[m] = src
             continue
         # rebuild with positions preserved as far as possible: replace by (row, col) from the end of each line backwards
         lines = src.split('\n')
         edits = collections.defaultdict(list)
+        # a module name is rewritten in import statements only (`match`, `code`, ... are ordinary identifiers elsewhere)
+        import_lines = {}                  # line -> 'module part only' | 'names too'
+        if mod_renames and m in trees:
+            for n in ast.walk(trees[m]):
+                if isinstance(n, ast.ImportFrom) and n.level >= 1 or isinstance(n, ast.Import):
+                    for ln in range(n.lineno, (n.end_lineno or n.lineno) + 1):
+                        import_lines[ln] = (isinstance(n, ast.Import) or n.module is None, n.lineno)
         try:
             for t in tokenize.generate_tokens(io.StringIO(src).readline):
-                if t.type == tokenize.NAME and t.string in renames and t.start[0] == t.end[0]:
-                    edits[t.start[0] - 1].append((t.start[1], t.end[1], renames[t.string]))
+                if t.type != tokenize.NAME or t.start[0] != t.end[0]:
+                    continue
+                ln = t.start[0]
+                if ln in import_lines:
+                    if t.string in mod_renames:
+                        after = _after_import(lines, import_lines[ln][1], ln, t.start[1])
+                        if not after:
+                            edits[ln - 1].append((t.start[1], t.end[1], mod_renames[t.string]))        # from .new import x
+                        elif import_lines[ln][0]:
+                            # from . import new  ->  from . import old as new   (the local name stays what the code uses)
+                            rest = lines[ln - 1][t.end[1]:].lstrip()
+                            txt = mod_renames[t.string] if rest.startswith('as ') else f'{mod_renames[t.string]} as {t.string}'
+                            edits[ln - 1].append((t.start[1], t.end[1], txt))
+                        continue
+                if t.string in renames:
+                    edits[ln - 1].append((t.start[1], t.end[1], renames[t.string]))
         except tokenize.TokenError:
             return sources, {}
         for ln, es in edits.items():
@@ -214,4 +275,4 @@ def canonicalise(sources: dict) -> tuple[dict, dict]:
                 s = s[:a] + new + s[b:]
             lines[ln] = s
         out[m] = '\n'.join(lines)
-    return out, renames
+    return out, {**mod_renames, **renames}
